@@ -137,6 +137,7 @@ proof fn lemma_hist_push(h: Seq<Value>, v: Value, chrom_length: u32)
 }
 
 //@extract fn bigtools/src/bbi/bigwigwrite.rs process_val
+//@rule R16
 //@rule R2 min=1
 //@rule R1 min=1
 //@rule R5 min=4
